@@ -36,6 +36,37 @@ CONTAINMENT_TOLERANCE = 5e-8
 LP_OPTIONS = {"primal_feasibility_tolerance": 1e-10, "dual_feasibility_tolerance": 1e-10}  # noqa: WPS407
 
 
+def _solve_lp(objective: np.ndarray, a_ub: np.ndarray, b_ub: np.ndarray, tight_only: bool = False) -> dict:
+    """
+    Minimize a linear objective over `a_ub x <= b_ub` with all variables free.
+
+    The tolerances above are below the residuals the solver itself leaves on degenerate but perfectly feasible systems
+    (`49 x + 7000 y = 700980` written as two inequalities, two regions that meet in one point, three consistent
+    equalities in two unknowns): its presolve, and sometimes the solver proper, then answers "infeasible" or gives up.
+    An answer other than "optimal" or "unbounded" is therefore not believed before the problem has been tried again
+    without the presolve and, unless the caller needs an optimum computed with the tight tolerances, with the
+    solver's default tolerances.
+
+    Args:
+        objective: the coefficients to minimize.
+        a_ub: constraint matrix.
+        b_ub: constraint bounds.
+        tight_only: only accept answers computed with the tight tolerances.
+
+    Returns:
+        The solver's result: the first that is "optimal" or "unbounded", otherwise the last one.
+    """
+    res = linprog(c=objective, A_ub=a_ub, b_ub=b_ub, bounds=(None, None), options=LP_OPTIONS)
+    retries = [dict(LP_OPTIONS, presolve=False)]
+    if not tight_only:
+        retries = retries + [{}, {"presolve": False}]
+    for options in retries:
+        if res["status"] in {0, 3}:
+            break
+        res = linprog(c=objective, A_ub=a_ub, b_ub=b_ub, bounds=(None, None), options=options)
+    return res
+
+
 class PolyhedralTerm(Term):
     """Polyhedral terms are linear inequalities over a list of variables."""
 
@@ -921,16 +952,8 @@ class PolyhedralTermList(TermList):  # noqa: WPS338
         polarity = 1
         if maximize:
             polarity = -1
-        res = linprog(c=polarity * obj_mat[0], A_ub=self_mat, b_ub=self_cons, bounds=(None, None), options=LP_OPTIONS)
-        if res["status"] == 2:
-            # the solver's presolve may report an unbounded problem as infeasible: ask again without it
-            res = linprog(
-                c=polarity * obj_mat[0],
-                A_ub=self_mat,
-                b_ub=self_cons,
-                bounds=(None, None),
-                options=dict(LP_OPTIONS, presolve=False),
-            )
+        # the solver's presolve may report an unbounded problem as infeasible, or give up: _solve_lp asks again
+        res = _solve_lp(polarity * obj_mat[0], self_mat, self_cons)
         # Linprog's status values
         # 0 : Optimization proceeding nominally.
         # 1 : Iteration limit reached.
@@ -1094,7 +1117,7 @@ class PolyhedralTermList(TermList):  # noqa: WPS338
             # 2 : Problem appears to be infeasible.
             # 3 : Problem appears to be unbounded.
             # 4 : Numerical difficulties encountered.
-            res = linprog(c=objective, A_ub=a_opt, b_ub=b_opt, bounds=(None, None), options=LP_OPTIONS)
+            res = _solve_lp(objective, a_opt, b_opt, tight_only=True)
             b_temp[i] -= 1
             # the tested row, relaxed by 1, is itself among the constraints: the LP is bounded, and a solver status
             # other than "optimal" says nothing about redundancy
@@ -1105,7 +1128,7 @@ class PolyhedralTermList(TermList):  # noqa: WPS338
                 n -= 1
             else:
                 i += 1
-            if res["status"] == 2:
+            if res["status"] == 2 and PolyhedralTermList.is_polytope_empty(a_opt, b_opt):
                 raise ValueError("The constraints are unsatisfiable")
 
         return a_temp, b_temp
@@ -1169,7 +1192,7 @@ class PolyhedralTermList(TermList):  # noqa: WPS338
             a_opt = np.concatenate((a_l, constraint), axis=0)
             b_opt = np.concatenate((b_l, np.array([b_temp])))
 
-            res = linprog(c=objective, A_ub=a_opt, b_ub=b_opt, bounds=(None, None), options=LP_OPTIONS)
+            res = _solve_lp(objective, a_opt, b_opt, tight_only=True)
             b_temp -= 1
             if res["status"] != 0:
                 # no optimum to compare with (infeasible, or the solver gave up): containment is not established
@@ -1212,7 +1235,7 @@ class PolyhedralTermList(TermList):  # noqa: WPS338
             return False
         assert n == len(b)
         objective = np.zeros((1, m))
-        res = linprog(c=objective, A_ub=a, b_ub=b, bounds=(None, None), options=LP_OPTIONS)
+        res = _solve_lp(objective, a, b)
         # Linprog's status values
         # 0 : Optimization proceeding nominally.
         # 1 : Iteration limit reached.
